@@ -15,6 +15,8 @@ pub enum Tag {
   Registered(u16),
   /// neighbour (+1 / -1) of a registered tag
   Adjacent(u16, bool),
+  /// a registered tag with one bit flipped (tree neighbours at every level)
+  Flip(u16, u8),
   Raw(u8),
 }
 
@@ -42,6 +44,7 @@ fn tag() -> BoxedStrategy<Tag> {
   prop_oneof![
     5 => any::<u16>().prop_map(Tag::Registered),
     2 => (any::<u16>(), any::<bool>()).prop_map(|(s, up)| Tag::Adjacent(s, up)),
+    2 => (any::<u16>(), 0u8..8).prop_map(|(s, b)| Tag::Flip(s, b)),
     1 => prop_oneof![Just(0u8), Just(255u8), any::<u8>()].prop_map(Tag::Raw),
   ]
   .boxed()
@@ -86,11 +89,12 @@ fn resolve(t: &Tag, reg: &[u8]) -> u8 {
         b.wrapping_sub(1)
       }
     }
+    Tag::Flip(s, b) => pick_tag(reg, *s) ^ (1 << (b % 8)),
     Tag::Raw(x) => *x,
   }
 }
 
-fn oracle(c: &Case, st: &mut Stats) -> Result<(), String> {
+pub fn oracle(c: &Case, st: &mut Stats) -> Result<(), String> {
   let points: Vec<_> = (0..4u64).map(|i| point_from(&valid_point(1000 + i).compress().to_bytes())).collect();
   let first = Server::new(c.mds.clone()).map_err(|e| e.to_string())?;
   let mut model = Model {
@@ -262,6 +266,10 @@ pub fn property() -> Property {
     level: "model_checking",
     rule: "model-based histories: a pool of server handles, each with a lineage (key identity), the lineage's registered tag set and the handle's punctured set; a memo (lineage, tag, point) -> output; the public-key bytes per lineage. Ops (1..60 per history, 120 thorough): Eval(handle, registered / adjacent / raw tag, one of 4 valid points, verifiable), Puncture(handle, tag incl. unregistered, already punctured, 0, 255, adjacent), Clone, ExportImport into a fresh server created with a different tag set, Sweep of all 256 tags, NewServer. Invariant after every op: eval is Ok iff tag registered in the lineage and not punctured in that handle's history; Ok outputs equal the memo; puncture is Ok exactly the first time per handle history; after a puncture the neighbours and all registered tags are re-checked; importer and exporter are swept over all 256 tags at export time; public key bytes constant per lineage; final sweep of every handle. Non-trivial: a puncture followed by an export/import or clone or further eval; distinct by op sequence.",
     assumptions: vec!["keys come from OsRng", "4 fixed valid points stand for 'a given point'"],
-    subs: vec![prop_sub("server_histories", 700, 20000, strat, oracle)],
+    subs: vec![
+      prop_sub("server_histories", 700, 20000, strat, oracle),
+      crate::fuzzentry::fuzz_sub("fuzzbytes_server", "server", "C14", 150, 3000),
+      crate::fuzzentry::artefact_sub("artefact_server", "server", "C14"),
+    ],
   }
 }
